@@ -37,7 +37,9 @@ theorem runs_are_finite {script : List Cmd} {s : State Val Err} (ls : List (Labe
     future of an accepted call (`pg_depOk`: a rejected submission returns no future).
     Conclusion: at the end of every maximal run every accepted future is done — result, exception
     or cancelled — including calls that were waiting for other futures, calls still queued at
-    shutdown, and futures the user cancelled. -/
+    shutdown, and futures the user cancelled.
+    (`no_lost_futures_lim` below is the stronger theorem: it replaces `WfRes`, a hypothesis on every
+    call of the program, by `WfLim`, a hypothesis on the executor's limits only.) -/
 theorem no_lost_futures (hnf : NoFail eval) (hwf : WfCfg cfg) (hres : WfRes cfg)
     {script : List Cmd} {s : State Val Err}
     (hsc : (script.filter isSubmit).length ≤ cfg.calls.length)
@@ -71,6 +73,50 @@ theorem all_done_when_wait_returns (hnf : NoFail eval) (hwf : WfCfg cfg) (hres :
     {sd : Sd} (hm : s.mainPc = .inSd sd) (hpc : sd.pc = .finish) (hw : sd.wait = true) :
     allAcceptedDone s = true :=
   (after_wait_true cfg eval cancelErr hnf hwf hres hsc h hD hm hpc hw).1
+
+/-! ### the same with a hypothesis on the limits only
+
+  `submit` refuses a call whose slots exceed `max_cores` (`submitTooBig`, label `mSubmitRaise`), so
+  only calls that fit ever get a future (`AccFits`, proved for every reachable state:
+  `accFits_reachable`).  The theorems below therefore assume `WfLim cfg` — a block allocation has a
+  worker; a `max_workers` limit that is the only limit allows one worker — instead of `WfRes cfg`,
+  and nothing about the requests of the program's calls: they are the STRONGER versions (`WfRes`
+  implies `WfLim` for every program with at least one call: `wfLim_of_wfRes_nonempty`; the only
+  exception is the empty program with `max_workers = 0`, `wfRes_not_wfLim`, for which the `WfRes`
+  versions remain). -/
+
+/-- **No lost futures, for any program**: as `no_lost_futures`, with `WfLim` (limits only) in place
+    of `WfRes` (every call fits).  Calls too big for `max_cores` are rejected at `submit`, get no
+    future and are not "accepted". -/
+theorem no_lost_futures_lim (hnf : NoFail eval) (hwf : WfCfg cfg) (hl : WfLim cfg)
+    {script : List Cmd} {s : State Val Err}
+    (hsc : (script.filter isSubmit).length ≤ cfg.calls.length)
+    (h : Reachable cfg eval cancelErr script s) (hD : pg_depOk cfg s = true)
+    (hst : Stuck cfg eval cancelErr s) : allAcceptedDone s = true := by
+  obtain ⟨hC, hL, hA, hb⟩ := progress_hyps_reachable_wfLim cfg eval cancelErr hnf hl hsc h
+  have hF := accFits_reachable cfg eval cancelErr h
+  exact (stuck_final_lim cfg eval cancelErr hnf hwf hl hF hC hL.inv hA hD hb hst).1
+
+/-- `no_lost_futures_each` with `WfLim` in place of `WfRes` (the stronger version). -/
+theorem no_lost_futures_each_lim (hnf : NoFail eval) (hwf : WfCfg cfg) (hl : WfLim cfg)
+    {script : List Cmd} {s : State Val Err}
+    (hsc : (script.filter isSubmit).length ≤ cfg.calls.length)
+    (h : Reachable cfg eval cancelErr script s) (hD : pg_depOk cfg s = true)
+    (hst : Stuck cfg eval cancelErr s) (i : Nat) (hi : i < s.nsub) (ha : futOf s i ≠ .absent) :
+    (futOf s i).done = true := by
+  have := no_lost_futures_lim cfg eval cancelErr hnf hwf hl hsc h hD hst
+  simp only [allAcceptedDone, List.all_eq_true, List.mem_range] at this
+  have hi' := this i hi
+  cases hf : futOf s i <;> simp_all [Fut.done]
+
+/-- `all_done_when_wait_returns` with `WfLim` in place of `WfRes` (the stronger version). -/
+theorem all_done_when_wait_returns_lim (hnf : NoFail eval) (hwf : WfCfg cfg) (hl : WfLim cfg)
+    {script : List Cmd} {s : State Val Err}
+    (hsc : (script.filter isSubmit).length ≤ cfg.calls.length)
+    (h : Reachable cfg eval cancelErr script s) (hD : pg_depOk cfg s = true)
+    {sd : Sd} (hm : s.mainPc = .inSd sd) (hpc : sd.pc = .finish) (hw : sd.wait = true) :
+    allAcceptedDone s = true :=
+  (after_wait_true_lim cfg eval cancelErr hnf hwf hl hsc h hD hm hpc hw).1
 
 /-! Non-vacuity: a maximal run with a dependent call, a cancelled call and shutdown(wait=True). -/
 def exCfg : Cfg := { resolver := true, block := some 1, calls := [{}, { deps := [0] }, {}] }
